@@ -142,43 +142,50 @@ where sizes : List VExpr → Nat
   | [] => 0
   | a :: as => a.size + sizes as
 
-/-- `lang.ValuesWithSameData` (with fuel ≥ size of both arguments it is the Go recursion). -/
-def sameData : Nat → VExpr → VExpr → Bool
+/-- `lang.ValuesWithSameData` (with fuel ≥ size of both arguments it is the Go recursion).
+`mem = true` is the Go function. `mem = false` switches off the two rules that look through memory
+(`matchLoad`: two loads of the same pointer; `MatchLoadField`: a load of a field of the value) — the
+rules that ignore stores between the two loads (finding C02a). -/
+def sameDataG (mem : Bool) : Nat → VExpr → VExpr → Bool
   | 0, _, _ => false
   | n + 1, v1, v2 =>
     if v1.id = v2.id then true
     else
       -- matchLoad
-      (match v1, v2 with
-        | .load _ x1, .load _ x2 => sameData n x1 x2
+      (mem && match v1, v2 with
+        | .load _ x1, .load _ x2 => sameDataG mem n x1 x2
         | _, _ => false)
       -- MatchLoadField v2
-      || (match v2 with
-        | .load _ (.fieldAddr _ z) => sameData n v1 z
+      || (mem && match v2 with
+        | .load _ (.fieldAddr _ z) => sameDataG mem n v1 z
         | _ => false)
       -- MatchExtract v2
       || (match v2 with
-        | .extract _ t _ => sameData n v1 t
+        | .extract _ t _ => sameDataG mem n v1 t
         | _ => false)
       -- matchConversion (v1 is tested first; v2 only if v1 is not a MakeInterface)
       || (match v1 with
-        | .makeIface _ x => sameData n x v2
+        | .makeIface _ x => sameDataG mem n x v2
         | _ => match v2 with
-          | .makeIface _ x => sameData n v1 x
+          | .makeIface _ x => sameDataG mem n v1 x
           | _ => false)
+
+abbrev sameData := sameDataG true
 
 def sameDataFuel (v1 v2 : VExpr) : Nat := v1.size + v2.size + 1
 
-/-- `isValuePredicateTo predicate val`. -/
-def isPredTo (val : VExpr) : VExpr → Bool
-  | .call _ pred _ args => pred && anyArg val args
-  | .nilCheck _ x _ => isPredTo val x
-  | .not _ x => isPredTo val x
-  | .extract _ t isLast => isLast && isPredTo val t
+/-- `isValuePredicateTo predicate val` (`mem` as in `sameDataG`). -/
+def isPredToG (mem : Bool) (val : VExpr) : VExpr → Bool
+  | .call _ pred _ args => pred && anyArg mem val args
+  | .nilCheck _ x _ => isPredToG mem val x
+  | .not _ x => isPredToG mem val x
+  | .extract _ t isLast => isLast && isPredToG mem val t
   | _ => false
-where anyArg (val : VExpr) : List VExpr → Bool
+where anyArg (mem : Bool) (val : VExpr) : List VExpr → Bool
   | [] => false
-  | a :: as => sameData (sameDataFuel a val) a val || anyArg val as
+  | a :: as => sameDataG mem (sameDataFuel a val) a val || anyArg mem val as
+
+abbrev isPredTo := isPredToG true
 
 /-- `isValidatorCondition ts v isPositive`. -/
 def isValidatorCond : VExpr → Bool → Bool
@@ -244,5 +251,11 @@ def condMustPass (g : Cfg) (sb db : Nat) (c : Cond) : Bool :=
 recognised as a validator check must-passes. -/
 def dropJustified (g : Cfg) (tbl : CondTable) (sb db : Nat) (cs : List Cond) : Bool :=
   cs.any (fun c => isValidatorCond (lookupCond tbl c.2) c.1 && condMustPass g sb db c)
+
+/-- the same, and moreover the validator was applied to the destination value itself up to tuple
+projection / interface boxing (no "same data" through memory). -/
+def dropJustifiedReg (g : Cfg) (tbl : CondTable) (sb db : Nat) (arg : VExpr) (cs : List Cond) : Bool :=
+  cs.any (fun c => isValidatorCond (lookupCond tbl c.2) c.1 && condMustPass g sb db c &&
+    isPredToG false arg (lookupCond tbl c.2))
 
 end Argot.PathCond
